@@ -139,8 +139,10 @@ def run_single(case):
   nt = len(spec[1]) > 1 or len(spec[0]) > 2
   skipped = 0
   ws = grid(n)
+  decoy = ZFilter([c + 1 for c in filt.numerator], [c * 2 if i else c for i, c in enumerate(filt.denominator)])
   for w in ws:
     try:
+      decoy.freq_response(w)           # another filter of the same shape at the same frequency first
       got = filt.freq_response(w)
     except Exception as exc:
       return bad("freq_response:exception:" + type(exc).__name__, "freq_response raised", {"w": w}, str(exc)[:160], nt)
